@@ -59,7 +59,9 @@ func NewMultiHandler(create StartFunc, sessionID []byte) (*MultiHandler, error) 
 		messages:        newQueue(r.OtherPartyIDs(), r.FinalRoundNumber()),
 		broadcast:       newQueue(r.OtherPartyIDs(), r.FinalRoundNumber()),
 		broadcastHashes: map[round.Number][]byte{},
-		out:             make(chan *Message, 2*r.N()),
+		// room for every message this party can emit in the whole session: finalize() below runs
+		// before the caller can obtain Listen(), and with a single party it runs through all rounds
+		out: make(chan *Message, (r.N()+1)*(int(r.FinalRoundNumber())+1)),
 	}
 	h.finalize()
 	return h, nil
